@@ -866,7 +866,9 @@ def node_mutates(n: Node) -> Set[str]:
     src = [a] if n.kind != "with" else [i.context_expr for i in a.items]
     for top in src:
         for x in walk_shallow(top):
-            if isinstance(x, (ast.Attribute, ast.Subscript)) and isinstance(x.ctx, (ast.Store, ast.Del)):
+            if isinstance(x, ast.Attribute) and isinstance(x.ctx, (ast.Store, ast.Del)) and isinstance(x.value, ast.Name):
+                out.add(f"{x.value.id}.{x.attr}")        # `x.a = ..` changes what `x.a` reads, not `x.b`
+            elif isinstance(x, (ast.Attribute, ast.Subscript)) and isinstance(x.ctx, (ast.Store, ast.Del)):
                 r = root(x)
                 if r:
                     out.add(r)
@@ -880,6 +882,9 @@ def node_mutates(n: Node) -> Set[str]:
                         if r:
                             out.add(r)
                 fname = f.id if isinstance(f, ast.Name) else None
+                if isinstance(f, ast.Attribute) and f.attr in ("append", "add", "extend", "insert", "update", "setdefault",
+                                                               "discard", "remove", "pop", "get"):
+                    continue        # storing an object in a container does not change the object
                 if fname in PURE_PREDICATES or fname in ("repr", "id", "hash", "abs", "min", "max", "sum", "sorted", "any",
                                                          "all", "set", "list", "tuple", "dict", "frozenset", "float"):
                     continue
@@ -1030,8 +1035,18 @@ class PathFacts:
                 an = self.atom_names[t]
                 if an & names:
                     continue
-                if mutated and (an & mutated) and not self._is_identity(t):
-                    continue
+                if mutated and not self._is_identity(t):
+                    hit = False
+                    for m in mutated:
+                        if "." in m:
+                            r_, a_ = m.split(".", 1)
+                            # an attribute store: the reads of that attribute, and atoms about the object as a whole
+                            if r_ in an and (m in t or (r_ + ".") not in t):
+                                hit = True
+                        elif m in an:
+                            hit = True
+                    if hit:
+                        continue
                 keep.append((t, p))
             out.add(frozenset(keep))
         return frozenset(out)
@@ -1070,6 +1085,7 @@ class PathFacts:
             node = ast.Compare(left=ast.Name(id=x, ctx=ast.Load()), ops=[ast.Is()], comparators=[rhs_ast])
             return node
         if isinstance(v, ast.Constant) and (v.value is None or isinstance(v.value, bool)):
+            facts.append((ast.Name(id=x, ctx=ast.Load()), bool(v.value)))        # `if x:` after `x = True / False / None`
             facts.append((is_atom(repr(v.value), ast.Constant(value=v.value)), True))
             for other in (None, True, False):
                 if other is not v.value:
@@ -1258,6 +1274,13 @@ class FuncAnalysis:
             alive.add(marks[0].split(":=", 1)[1])
         out = [d for d in ds if (("entry" if d is self.cfg.entry else str(d.id)) in alive)]
         return out or ds
+
+    def paths_all(self) -> "PathFacts":
+        """path-sensitive facts tracking every test and the per-path definition of every local (small functions only)"""
+        key = ("all",)
+        if key not in self._paths:
+            self._paths[key] = PathFacts(self.cfg, self.rd, lambda t: True)
+        return self._paths[key]
 
     def paths_for(self, words) -> "PathFacts":
         """path-sensitive facts tracking the correlated tests of the function and every atom whose text contains one of
